@@ -83,3 +83,10 @@ Fixpoint ordered_defs (ds : list fndef) : bool :=
 Definition ordered_prog (p : prog) : bool :=
   ordered_defs (p_defs p) && ogb (map fd_name (p_defs p)) false (p_main p) && nfr_b (p_main p).
 
+
+(* every string occurring in one of the four keyword tables is the name of a flow-control command
+   (so a name that is no command name is inert for every scanner) *)
+Definition tables_closed : bool :=
+  forallb (fun T => forallb (fun c => match classify_fn c with FKBase KOther => false | _ => true end)
+                            (starts T ++ middles T ++ ends T ++ sblocks T ++ eblocks T))
+          [gen_if_tables; gen_while_tables; gen_for_tables; gen_function_tables].
